@@ -2382,13 +2382,13 @@ fn core_word_const(xs: &mut State) -> Xresult {
     } else {
         let val = xs.pop_data()?;
         let name = Xstr::from(name.as_str());
-        if let Some(pos) = xs.dict_pos(name.as_str()) {
-            match &mut xs.dict[pos].entry {
-                Entry::Constant(old) => *old = val,
-                _ => return Err(Xerr::const_context())
+        // a new value shadows the old one (nothing is overwritten in place, so a source that
+        // is rejected later can give the name back)
+        match xs.dict_entry(name.as_str()) {
+            None | Some(Entry::Constant(_)) => {
+                xs.dict_insert(name, Entry::Constant(val))?;
             }
-        } else {
-            xs.dict_insert(name, Entry::Constant(val))?;
+            _ => return Err(Xerr::const_context()),
         }
         OK
     }
